@@ -434,6 +434,15 @@ def match_error_handler(fn, key1, key2):
 
 
 class ConditionalRoleManager(RoleManager, CRM):
+    def clear(self):
+        """drops all links. The link condition functions are registered per (user, role, domain), not per link: they
+        stay registered, as they do when a link is deleted and added again, so that a rebuilt link is not followed
+        unconditionally. The stored parameters belong to the links and go with them."""
+        holders = [role for role in self.all_roles.values() if role.link_condition_func_map]
+        super().clear()
+        for role in holders:
+            self._get_role(role.name).link_condition_func_map = role.link_condition_func_map
+
     def has_link(self, name1, name2, *domains):
         """determines whether role: name1 inherits role: name2."""
         if name1 == name2 or (self.matching_func is not None and self._matching_fn(name1, name2)):
@@ -561,6 +570,12 @@ class ConditionalDomainManager(DomainManager, ConditionalRoleManager):
             for link in domain_links:
                 rm.add_link(link[0], link[1])
         return rm
+
+    def clear(self):
+        """drops all links; the per-domain managers stay, emptied, with their registered link condition functions"""
+        self.all_links = dict()
+        for rm in self.rm_map.values():
+            rm.clear()
 
     def has_link(self, name1, name2, *domain):
         domain = self._get_domain(*domain)
